@@ -3212,6 +3212,14 @@ class StateEngine(object):
                 """
                 event["data"] = data
 
+                """
+                Restore the retry info of the Map or Parallel state. The context
+                is that of the Branch or Iterator event that failed, so any
+                retry info it holds belongs to a state in that Branch e.g. a
+                Task that was itself retried, not to the Map or Parallel state.
+                """
+                context_state.pop("RetryCount", None)
+                context_state.pop("RetryTimeout", None)
                 if retry_count:
                     context_state["RetryCount"] = retry_count
                 if retry_timeout:
